@@ -214,6 +214,9 @@ func (c *SyncMap) Restore(r io.Reader) (int, error) {
 	)
 
 	for {
+		// Gob omits zero fields and decodes into existing key buffer, reset the entry to not leak previous record.
+		e = TraitEntry{}
+
 		err := decoder.Decode(&e)
 		if err != nil {
 			if errors.Is(err, io.EOF) {
